@@ -54,6 +54,7 @@ func (t *transport) Close() error {
 }
 
 func (t *transport) WriteMsg(msg messages.Common, requireToAck bool) error {
+	verifYield("write", msg)
 	var data []byte
 	switch message := msg.(type) {
 	case *messages.Unencrypted:
